@@ -267,6 +267,18 @@ pub fn apply(op: &Op, sc: &Scenario, req: &[u8], prev_honest: &[u8]) -> Vec<u8> 
                     p.srep.set("MIDP", le64(1_000_000_000));
                     p.sign_srep(v, &o.online_seed);
                 }
+                // genuine delegation (signed by S1) of a "key" that is not a curve point, SREP carrying the
+                // degenerate signature (R = neutral element, s = 0)
+                "pubk-non-point-neutral-sig" => {
+                    p.dele.set("PUBK", crypto::non_point_key().to_vec());
+                    p.sign_dele(v, &id.lt_seed);
+                    p.sig = crypto::neutral_signature().to_vec();
+                }
+                "pubk-non-point-zero-sig" => {
+                    p.dele.set("PUBK", crypto::non_point_key().to_vec());
+                    p.sign_dele(v, &id.lt_seed);
+                    p.sig = vec![0u8; 64];
+                }
                 // properly signed SREP whose ROOT is not a full Merkle node: nothing can bind to it
                 "root-empty" | "root-prefix-4" | "root-half" | "root-extended" => {
                     let full = p.srep.get("ROOT").map(|r| r.to_vec()).unwrap_or_default();
@@ -453,7 +465,7 @@ pub fn alphabet(v: Version, honest_len: usize, tier: Tier) -> Vec<Op> {
             ops.push(Op::Shadow(f, c));
         }
     }
-    for r in ["all-by-s2", "srep-by-s2-online", "dele-by-s2", "window-before", "window-after", "window-empty", "window-inverted-below", "window-inverted-above", "window-inverted-extremes", "root-of-other-batch", "root-empty", "root-prefix-4", "root-half", "root-extended", "forged-srep-with-certsig", "forged-dele-keeping-certsig"] {
+    for r in ["all-by-s2", "srep-by-s2-online", "dele-by-s2", "window-before", "window-after", "window-empty", "window-inverted-below", "window-inverted-above", "window-inverted-extremes", "root-of-other-batch", "root-empty", "root-prefix-4", "root-half", "root-extended", "forged-srep-with-certsig", "forged-dele-keeping-certsig", "pubk-non-point-neutral-sig", "pubk-non-point-zero-sig"] {
         ops.push(Op::Resign(r));
     }
     for c in ["dele-ctx", "tree-profile", "whole-reply", "framing"] {
@@ -833,6 +845,56 @@ pub fn run_c01(ctx: &Ctx) -> Result<(), String> {
         sp.kill();
         ctx.cov("real_server_proxy_runs", json!(proxy_n));
     }
+    // T10: the pinned key is not a curve point (a mistyped key): nothing is authentic under it, whatever
+    // the reply carries — a chain signed by an attacker's keys, or degenerate signatures
+    {
+        let bad = crypto::non_point_key();
+        let mut t10 = 0u64;
+        for v in [Version::Classic, Version::Ietf13] {
+            let proto = if v == Version::Classic { "0" } else { "13" };
+            let sc = Scenario { v, n: 1, i: 0, stamp: Stamp::at(v, 1_790_000_000, 5) };
+            for b64 in [false, true] {
+                let key = if b64 { crypto::base64(&bad, false, true) } else { hex(&bad) };
+                for forged in ["cert-neutral-sig/srep-by-attacker", "all-neutral-sig", "honest-s1-chain"] {
+                    let args = ["-z", "-v", "-f", "%s %f", "-p", proto, "-t", "5", "-k", key.as_str()];
+                    let mut sent = vec![];
+                    let run = run_client(&args, 1, |reqs| {
+                        let batch = batch_for(v, sc.n, sc.i, &reqs[0].0);
+                        let mut p = honest_parts(v, &s1(), &batch, sc.i, sc.stamp);
+                        match forged {
+                            "cert-neutral-sig/srep-by-attacker" => {
+                                let o = s2();
+                                p.dele.set("PUBK", o.online_pk().to_vec());
+                                p.sign_srep(v, &o.online_seed);
+                                p.cert_sig = crypto::neutral_signature().to_vec();
+                            }
+                            "all-neutral-sig" => {
+                                p.dele.set("PUBK", bad.to_vec());
+                                p.cert_sig = crypto::neutral_signature().to_vec();
+                                p.sig = crypto::neutral_signature().to_vec();
+                            }
+                            _ => {}
+                        }
+                        sent = p.datagram();
+                        vec![vec![sent.clone()]]
+                    })?;
+                    t10 += 1;
+                    evals.fetch_add(1, Relaxed);
+                    nontrivial.fetch_add(1, Relaxed);
+                    let acc = run.exit.code == Some(0) && !printed_times(&run.exit.stdout).is_empty();
+                    *classes.lock().unwrap().entry(format!("T10-pinned-key-not-a-point:{}:{}", forged, if acc { "accepted" } else { "refused" })).or_insert(0) += 1;
+                    if acc {
+                        if let Err(c) = authentic(&sent, &run.requests[0].0, v, Some(&bad), CLIENT_VIEW) {
+                            ctx.violation("accepted-unauthentic", c, "T10-pinned-key-not-a-point", json!({"kind":"client","version":v.name(),"op":forged,"pinned_key":hex(&bad),"key_form":if b64 { "base64" } else { "hex" },
+                                "message":"the pinned key is not the encoding of a curve point, so no signature is valid under it; the client accepted a reply and printed a time",
+                                "reply":hex_trunc(&sent, 4096),"request":hex_trunc(&run.requests[0].0, 2048),"exit":run.exit.code,"stdout":run.exit.stdout}));
+                        }
+                    }
+                }
+            }
+        }
+        ctx.cov("pinned_key_not_a_point_runs", json!(t10));
+    }
     // T8 sampled random multi-byte mutations
     let mut sampled = 0u64;
     {
@@ -873,7 +935,7 @@ pub fn run_c01(ctx: &Ctx) -> Result<(), String> {
     ctx.cov("outcome_classes", json!(*classes.lock().unwrap()));
     ctx.cov("exhaustive", json!(true));
     ctx.cov("bound", json!({"deviations": 1, "batch_shapes": shapes(ctx.tier), "multi_request": [2, 3]}));
-    ctx.cov("rule", json!("each case = one execution of the real roughenough-client process (-z -v -f '%s %f' -k <S1 key, hex or base64> -p 0|13 [-j]) against a harness UDP responder that builds the honest reply for the request actually received (reference responder, keys S1) and applies ONE tamper operator: T1 every single bit of the whole datagram; T2 field substitutions on SIG, CERT.SIG, PATH, INDX, SREP.{MIDP,RADI,ROOT,VER}, DELE.{PUBK,MINT,MAXT} without re-signing; T3 chain re-signed by another long-term key; T4 properly signed (by S1) delegation window excluding MIDP, root of another batch, ROOT that is not a full node (empty, 4-byte prefix, half, extended); T5 cross-protocol context/tree/framing; T6 replies for other requests (same batch, other batch, previous run; for -n 2/3 all assignment functions); T7 truncations (quick: every 4 bytes, thorough: every byte) and extensions; raw junk; genuine signature values reused in the other role; T9 a signed field made unacceptable with the acceptable value offered as an unsigned tag of the same name at the top level of the reply or inside the CERT container (PUBK, MINT, MAXT, MIDP, ROOT, DELE); and, with -n 2, every structured operator on the SECOND reply after an honest first one (state remembered by the client process). Also, through a recording proxy in front of a real roughenough-server of the current tree: the genuine response recorded in one run replayed to a later run, and with -n 2 (thorough 3) every assignment of the run's genuine responses to its requests. 0 deviations = honest baseline. Oracle: violation iff the client exits 0 and prints a time while rtref::authentic (client view, pinned key) rejects. Non-trivial = any case with a tamper operator."));
+    ctx.cov("rule", json!("each case = one execution of the real roughenough-client process (-z -v -f '%s %f' -k <S1 key, hex or base64> -p 0|13 [-j]) against a harness UDP responder that builds the honest reply for the request actually received (reference responder, keys S1) and applies ONE tamper operator: T1 every single bit of the whole datagram; T2 field substitutions on SIG, CERT.SIG, PATH, INDX, SREP.{MIDP,RADI,ROOT,VER}, DELE.{PUBK,MINT,MAXT} without re-signing; T3 chain re-signed by another long-term key; T4 properly signed (by S1) delegation window excluding MIDP, root of another batch, ROOT that is not a full node (empty, 4-byte prefix, half, extended); T5 cross-protocol context/tree/framing; T6 replies for other requests (same batch, other batch, previous run; for -n 2/3 all assignment functions); T7 truncations (quick: every 4 bytes, thorough: every byte) and extensions; raw junk; genuine signature values reused in the other role; T10 a delegated PUBK that is not a curve point with degenerate SREP signatures (R = neutral element, s = 0; all zero), and runs whose PINNED key is not a curve point (attacker-signed chain under a degenerate CERT signature, all-degenerate signatures, the honest chain); T9 a signed field made unacceptable with the acceptable value offered as an unsigned tag of the same name at the top level of the reply or inside the CERT container (PUBK, MINT, MAXT, MIDP, ROOT, DELE); and, with -n 2, every structured operator on the SECOND reply after an honest first one (state remembered by the client process). Also, through a recording proxy in front of a real roughenough-server of the current tree: the genuine response recorded in one run replayed to a later run, and with -n 2 (thorough 3) every assignment of the run's genuine responses to its requests. 0 deviations = honest baseline. Oracle: violation iff the client exits 0 and prints a time while rtref::authentic (client view, pinned key) rejects. Non-trivial = any case with a tamper operator."));
     ctx.sample(json!({"version":"classic","n":3,"i":2,"op":"set:CERTSIG:by-s2","key":"hex"}));
     ctx.sample(json!({"version":"ietf13","n":1,"i":0,"op":"flipbit:1007","key":"base64"}));
     ctx.sample(json!({"version":"classic","nreq":3,"assignment":[1,0,2]}));
@@ -1106,12 +1168,15 @@ pub fn run_c03(ctx: &Ctx) -> Result<(), String> {
     }
     // (2) the real server binary as honest peer, -n k so requests really land in batches
     let real_n = crate::proc::c03_real_server_part(ctx, &classes)?;
+    let mixed_n = crate::proc::c03_mixed_company_part(ctx, &classes)?;
+    ctx.cov("real_server_mixed_company_runs", json!(mixed_n));
+    let real_n = real_n + mixed_n;
     ctx.cov("evaluations", json!(evals.load(Relaxed) + real_n));
     ctx.cov("distinct_nontrivial", json!(evals.load(Relaxed) + real_n));
     ctx.cov("outcome_classes", json!(*classes.lock().unwrap()));
     ctx.cov("exhaustive", json!(true));
     ctx.cov("bound", json!({"batch_shapes": shapes.len(), "midpoints": mids.len(), "real_server_runs": real_n}));
-    ctx.cov("rule", json!("each case = one execution of the real client against (1) the reference responder placing the client's request at position i of a batch of n (quick: all i for n in {1,2,3,5,8}, i in {0,31,63} for 64; thorough: all 2080 shapes n<=64) with a signed midpoint from {0, 1us, 1.999999s, 2^31-1, 2^31, now, year 2200, 9999-12-31T23:59:59.999999}, version x key option {none, hex, base64} x plain/JSON; the key spelled as lower/upper/mixed-case hex and base64; (2) the real server binary with -n k. Oracle: exit 0, printed time == signed midpoint converted from the protocol unit (independent calendar conversion for the default format), verified=Yes iff a key was given, merkle_index == i. Local time: the client run under TZ in {UTC, JST-9, EST5, <+0545>-5:45, Asia/Tokyo, America/New_York} with and without -z at instants either side of the 2026 DST changes (including instants whose UTC calendar fields fall into New York's skipped and repeated hour): %s == midpoint and the calendar fields == midpoint + zone offset."));
+    ctx.cov("rule", json!("each case = one execution of the real client against (1) the reference responder placing the client's request at position i of a batch of n (quick: all i for n in {1,2,3,5,8}, i in {0,31,63} for 64; thorough: all 2080 shapes n<=64) with a signed midpoint from {0, 1us, 1.999999s, 2^31-1, 2^31, now, year 2200, 9999-12-31T23:59:59.999999}, version x key option {none, hex, base64} x plain/JSON; the key spelled as lower/upper/mixed-case hex and base64; (2) the real server binary with -n k (batch sizes 64 and 3, 1 and 4 workers), and through a forwarding proxy that queues the client's requests on a stopped (SIGSTOP/SIGCONT) one-worker server together with a request of the other protocol and/or a junk datagram in front of, between or behind them, so that they share one batch. Oracle: exit 0, printed time == signed midpoint converted from the protocol unit (independent calendar conversion for the default format), verified=Yes iff a key was given, merkle_index == i. Local time: the client run under TZ in {UTC, JST-9, EST5, <+0545>-5:45, Asia/Tokyo, America/New_York} with and without -z at instants either side of the 2026 DST changes (including instants whose UTC calendar fields fall into New York's skipped and repeated hour): %s == midpoint and the calendar fields == midpoint + zone offset."));
     ctx.sample(json!({"peer":"reference-responder","version":"ietf13","n":5,"i":3,"midpoint":[2147483648u64, 500000],"key":"hex"}));
     ctx.sample(json!({"peer":"real-server","version":"classic","n":8}));
     Ok(())
